@@ -102,6 +102,7 @@ U(id="ev.async.start.busy", props=["C16"], tier="quick", **{"class": "full-domai
 # ---------------------------------------------------------------- C16 POSIX write state machine (dfcc harness + loop contract)
 # do-while: the loop head is the start of the body, reached on entry (nothing accepted yet in this event) and on every EINTR
 # retry (the failed call accepted nothing); what the last call returned is known exactly after the loop exit
+READ_WIP = {"disabled_reason": "under construction: does not finish in 10 minutes yet"}
 WRITE_INV = "g_accepted == g_acc0 && (nwrote == 0 || nwrote == -1)"
 U(id="ev.write.step", props=["C16"], **{"class": "proved"},
   clause="ev_callback_write, any message length and offset: write/send/sendto gets exactly (bytes + start, len - start); afterwards start has advanced by the number written and equals the bytes the kernel accepted (none re-sent, none skipped); the fiber completes with nil iff start >= len, is cancelled on error/disconnect/close, and EAGAIN leaves the operation pending and untouched",
@@ -124,7 +125,7 @@ U(id="ev.write.step", props=["C16"], **{"class": "proved"},
            {"name": "eagain-cancels", "file": "ev.c", "find": "                    if (errno == EAGAIN || errno == EWOULDBLOCK) break;\n                    janet_cancel(fiber, janet_ev_lasterr());\n                    janet_async_end(fiber);\n                    break;\n                }\n\n                /* Unless using datagrams", "replace": "                    janet_cancel(fiber, janet_ev_lasterr());\n                    janet_async_end(fiber);\n                    break;\n                }\n\n                /* Unless using datagrams", "expect": "EAGAIN"}])
 
 
-U(id="ev.read.step", props=["C16"], **{"class": "bounded"}, bound="at most 3 successful reads per readiness event (chunk mode loops while data keeps coming), no two EINTR in a row; every buffer size, request size, mode and state",
+U(id="ev.read.step", props=["C16"], **{"class": "bounded"}, **READ_WIP, bound="at most 3 successful reads per readiness event (chunk mode loops while data keeps coming), no two EINTR in a row; every buffer size, request size, mode and state",
   clause="ev_callback_read, any request and state: each read/recv/recvfrom gets exactly the free range after the bytes already received and at most the outstanding count; count, bytes_read and bytes_left move by exactly the bytes delivered; a plain read resumes with the buffer at the first data, a chunked read only with all n bytes or at end of stream, end of stream before any byte resumes with nil, an error cancels, EAGAIN leaves the operation pending and untouched",
   harness=["ev_read.c"], entry="h_read", mode="plain", functions=["ev_callback_read"], nanbox=False, link=["wrap.c"],
   replace_calls=["read:read_stub", "recv:recv_stub", "recvfrom:recvfrom_stub", "__errno_location:errno_stub", "janet_buffer_extra:buffer_extra_stub",
